@@ -399,7 +399,7 @@ FIELD_NAMES = ["id", "name", "a", "A", "a_", "type", "query", "on", "input", "fr
                "interface", "value", "_x", "list", "tags"]
 DICT_ATTRS = set(dir(dict)) | set(dir(object))
 ENUM_VALUES = ["RED", "GREEN", "BLUE", "FIELD", "ENUM", "QUERY", "on", "type", "a", "A", "OBJECT",
-               "SCALAR", "input", "x_1", "SCHEMA"]
+               "SCALAR", "input", "x_1", "SCHEMA", "True", "None", "False"]
 ARG_NAMES = ["x", "y", "id", "if", "first", "type", "on", "input", "a", "A", "filter"]
 INPUT_FIELD_NAMES = ["s", "i", "f", "b", "e", "n", "l", "type", "on", "a", "A", "nested", "id"]
 
